@@ -329,4 +329,33 @@ def spRun (ex : Nat → Bool) (st : SpState) : List Tid → SpState
 def spInit (sysPath : List Nat) (prog : Tid → List Nat) : SpState :=
   { threads := fun t => { ops := prog t, pc := .spIdle }, lock := none, sysPath := sysPath, known := [] }
 
+/-- places where the harness can park a thread inside `add_sys_path`: before the call, in
+    `_sys_path_lock.__enter__`, in `_sys_path_lock.__exit__` -/
+def SpPc.parked : SpPc → Bool
+  | .spIdle | .spWant _ | .spRelease _ => true
+  | _ => false
+
+def spSettle (ex : Nat → Bool) : Nat → SpState → Tid → SpState
+  | 0, st, _ => st
+  | n + 1, st, t => if (st.threads t).pc.parked then st else spSettle ex n (spStep ex st t) t
+
+def spTurn (ex : Nat → Bool) (st : SpState) (t : Tid) : SpState := spSettle ex 3 (spStep ex st t) t
+
+def spEnabled (st : SpState) (t : Tid) : Bool :=
+  match (st.threads t).pc with
+  | .spIdle => !(st.threads t).ops.isEmpty
+  | .spWant _ => st.lock.isNone
+  | _ => true
+
+def spRunTurns (ex : Nat → Bool) (st : SpState) : List Tid → SpState
+  | [] => st
+  | t :: ts => spRunTurns ex (spTurn ex st t) ts
+
+def spFinish (ex : Nat → Bool) (n : Nat) : Nat → SpState → SpState
+  | 0, st => st
+  | fuel + 1, st =>
+    match (List.range n).find? (spEnabled st) with
+    | none => st
+    | some t => spFinish ex n fuel (spTurn ex st t)
+
 end Pypyr.CacheTS
